@@ -54,7 +54,7 @@ def units(tier, seed):
         for part in split_list(codes, 25 if p == 3 else 1):
             out.append({"stage": "graphs", "p": p, "codes": part})
     dags4 = G.dag_codes(4)
-    dags4 = dags4[::12] if tier == "quick" else dags4
+    dags4 = dags4[::12] if tier == "quick" else dags4[::3]
     for part in split_list(dags4, 16 if tier == "quick" else 128):
         out.append({"stage": "graphs", "p": 4, "codes": part, "light": True})
     out += [{"stage": "wide", "k": k, "n": 8} for k in range(8)]
@@ -223,12 +223,12 @@ def explore_config(p, code, lab, sizes, n, seed_arg, acc, tier):
     # deviation 1 first (needed for the influence analysis), then the complete product when it is small
     tape.explore(run, bound=1, max_exec=20000)
     mode = "deviation<=1"
-    cap = 150 if tier == "quick" else 3000
+    cap = 150 if tier == "quick" else 600
     nexec, capped = tape.explore(run, bound=None, max_exec=cap)
     if not capped:
         mode = "complete"
     elif tier == "thorough":
-        n2, capped2 = tape.explore(run, bound=2, max_exec=6000)
+        n2, capped2 = tape.explore(run, bound=2, max_exec=1500)
         mode = "deviation<=2" if not capped2 else "deviation<=1"
     acc.extra["configs_" + mode] += 1
     # source independence: the RNG cells that influence two different source columns of one environment are disjoint
@@ -514,13 +514,13 @@ def describe(tier, seed):
                      "exhaustive enumeration of harness-owned answers (stateless DFS), seeded reproducibility by explicit exploration of call histories with the real RNG",
         "rule": "every labelled DAG p<=3 (binary and weighted; every %s 4-node DAG) x {1 environment of 5 rows, 2 environments of 6 and 8 rows} with globally unique values x "
                 "n in {None, int, per-environment list} x random_state in {None, 0}; under the owned RNG every answer of every bootstrap / forest choice cell (every single deviation always; the complete "
-                "product when <= %d executions; thorough: else every sequence with <= %d non-default answers where that fits 6000 executions). Oracle: one (n_k x p) array per environment; every value observed for that variable "
+                "product when <= %d executions; thorough: else every sequence with <= %d non-default answers where that fits 1500 executions). Oracle: one (n_k x p) array per environment; every value observed for that variable "
                 "in that environment; one fit per (non-source variable, environment) on the sorted parents; exactly one query per fitted model, equal to the synthetic parent "
                 "columns; output = a positive-weight answer of that model; RNG cells driving two source columns of an environment are disjoint (seeded and unseeded); no RNG "
                 "address is consumed twice within one call (single-environment data); 80 targeted 10-node colliders whose parents mix node indices below and above 8. 24 invalid "
                 "argument cases -> documented TypeError / ValueError; histories of <= %d perturbing operations: sample(n, random_state=s) bit-identical to the initial state; real "
                 "numpy seeds 0..9: sources not resampled with identical indices. non-trivial: execution with a non-default answer" % (
-                    "12th" if tier == "quick" else "", 150 if tier == "quick" else 3000, 1 if tier == "quick" else 2, 2 if tier == "quick" else 3),
+                    "12th" if tier == "quick" else "3rd", 150 if tier == "quick" else 600, 1 if tier == "quick" else 2, 2 if tier == "quick" else 3),
         "exhaustive": False,
         "bounds": {"p_exhaustive": 3, "history_depth": 2 if tier == "quick" else 3, "deviation_when_capped": 1 if tier == "quick" else 2},
         "assumptions": ["the R package drf is replaced by a deterministic stand-in behind the rpy2 interface, as the property stipulates; only the Python side is checked",
